@@ -750,6 +750,68 @@ func TestRaceDetector(t *testing.T) {
 			ctx.Done().Recv()
 			_ = *Rd(&x.a, "main")
 		}},
+		{"append into shared spare capacity", true, func() {
+			base := make([]byte, 3, 64)
+			var wg WaitGroup
+			wg.Add(2)
+			for i := 0; i < 2; i++ {
+				Go("a", func() { _ = Append("a", base, '.', 'k'); wg.Done() })
+			}
+			wg.Wait()
+		}},
+		{"append into shared spare capacity vs read of it", true, func() {
+			base := make([]byte, 3, 64)
+			full := base[:8]
+			var wg WaitGroup
+			wg.Add(2)
+			Go("a", func() { _ = AppendString("a", base, "abcde"); wg.Done() })
+			Go("r", func() { dst := make([]byte, 8); Copy("r", dst, full); wg.Done() })
+			wg.Wait()
+		}},
+		{"append that reallocates (clipped parent)", false, func() {
+			base := make([]byte, 3, 64)[:3:3]
+			var wg WaitGroup
+			wg.Add(2)
+			for i := 0; i < 2; i++ {
+				Go("a", func() { _ = Append("a", base, '.', 'k'); wg.Done() })
+			}
+			wg.Wait()
+		}},
+		{"append under a mutex", false, func() {
+			buf := make([]byte, 0, 64)
+			var mu Mutex
+			var wg WaitGroup
+			wg.Add(3)
+			for i := 0; i < 3; i++ {
+				Go("a", func() { mu.Lock(); buf = AppendSlice("a", buf, []byte("xy")); mu.Unlock(); wg.Done() })
+			}
+			wg.Wait()
+		}},
+		{"pooled buffer appended to by successive owners", false, func() {
+			var p Pool
+			b := make([]byte, 0, 32)
+			p.Put(&b)
+			var wg WaitGroup
+			wg.Add(2)
+			for i := 0; i < 2; i++ {
+				Go("a", func() {
+					if q, _ := p.Get().(*[]byte); q != nil {
+						*q = AppendString("a", (*q)[:0], "line")
+						p.Put(q)
+					}
+					wg.Done()
+				})
+			}
+			wg.Wait()
+		}},
+		{"copy into disjoint halves", false, func() {
+			dst := make([]byte, 16)
+			var wg WaitGroup
+			wg.Add(2)
+			Go("a", func() { CopyString("a", dst[:8], "aaaaaaaa"); wg.Done() })
+			Go("b", func() { CopyString("b", dst[8:], "bbbbbbbb"); wg.Done() })
+			wg.Wait()
+		}},
 		{"once publishes", false, func() {
 			x := &shared{}
 			var o Once
